@@ -68,10 +68,11 @@ def check_C10(tier, replay):
                          "seed": rng.randrange(1 << 30), "sample": 0})
         # one long AND batch (message chunking / index arithmetic beyond small powers of two)
         jobs.append({"kind": "Dist", "id": "dist.n2.longbatch", "n": 2, "l_rand": 4400, "l_and": 2200, "seed": 9, "sample": 300})
+        # bucket size 4 (>= 3100 triples in one batch)
+        jobs.append({"kind": "Dist", "id": "dist.n2.bucket4", "n": 2, "l_rand": 6200, "l_and": 3100, "seed": 5, "sample": 400})
         if not q:
             jobs.append({"kind": "Dist", "id": "dist.n3.longbatch", "n": 3, "l_rand": 5000, "l_and": 2500, "seed": 9, "sample": 300})
-            # bucket size 4 (>= 3100 triples in one batch)
-            jobs.append({"kind": "Dist", "id": "dist.n2.bucket4", "n": 2, "l_rand": 6200, "l_and": 3100, "seed": 5, "sample": 400})
+            jobs.append({"kind": "Dist", "id": "dist.n3.bucket4", "n": 3, "l_rand": 6200, "l_and": 3100, "seed": 6, "sample": 400})
         for n in (2, 3) if q else (2, 3, 4, 5):
             for l, la in ((1, 0), (8, 4), (129, 64)) if q else ((1, 0), (2, 1), (8, 4), (129, 64), (1001, 500)):
                 jobs.append({"kind": "Dealer", "id": f"dealer.n{n}.l{l}", "n": n, "l_rand": l, "l_and": la, "seed": 1})
